@@ -3,6 +3,7 @@ import GdslModel.Model.Spec
 import GdslModel.Model.Search
 import GdslModel.Model.Container
 import GdslModel.Model.Json
+import GdslModel.Model.Cbor
 import GdslModel.Model.Own
 import GdslModel.Model.Sync
 import GdslModel.Model.Live
@@ -235,6 +236,9 @@ def unhex (h : String) : List Nat :=
     | _ => []
   go (h.toList.drop 1)
 
+def hexDigit (n : Nat) : Char := if n < 10 then Char.ofNat (48 + n) else Char.ofNat (87 + n)
+def hexOf (bs : List Nat) : String := String.ofList ('x' :: bs.flatMap fun b => [hexDigit (b / 16 % 16), hexDigit (b % 16)])
+
 /-- replace the world of the case by a rebuilt graph (slot 0) -/
 def newWorld (st : St) (ns : List (Nat × Int)) (s : S) : St :=
   { st with keys := ns.map (·.1), nvals := ns, s := s, graphs := [(0, { members := ns.map (·.1) })] }
@@ -336,6 +340,9 @@ def contReq (st : St) (toks : List String) : St × String :=
     -- the bytes `serde_json::to_vec` writes, from the byte-level model
     | some i => (st, withOrder st i toks fun π => String.ofList ((Json.serJson st.s (nodeVal st) π).map Char.ofNat))
     | none => (st, "bad-op")
+  | ["g.serraw", i, "cbor"] => match i.toNat? with
+    | some i => (st, withOrder st i toks fun π => hexOf (Cbor.serCbor st.s (nodeVal st) π))
+    | none => (st, "bad-op")
   | ["g.roundtrip", i, _fmt] => match i.toNat? with
     | some i =>
       match orderAnnot toks with
@@ -350,6 +357,11 @@ def contReq (st : St) (toks : List String) : St × String :=
   | ["g.deraw", _i, "json", hex] =>
     -- raw bytes through the byte-level JSON model
     match Json.deJson (unhex hex) with
+    | none => (st, "err")
+    | some (ns, s) => (newWorld st ns s, s!"ok n={ns.length}")
+  | ["g.deraw", _i, "cbor", hex] =>
+    -- raw bytes through the byte-level CBOR model
+    match Cbor.deCbor (unhex hex) with
     | none => (st, "err")
     | some (ns, s) => (newWorld st ns s, s!"ok n={ns.length}")
   | ["g.deraw", _i, _fmt, _hex] => (st, "any")
